@@ -257,10 +257,19 @@ type BoundContract struct {
 	Results []string
 	Pkg     *types.Package
 	Full    string
+	Anon    *ssa.Function // set when the contract is on a function literal ("Outer$1")
+}
+
+// sig is the signature the contract is written over.
+func (bc *BoundContract) sig() *types.Signature {
+	if bc.Anon != nil {
+		return bc.Anon.Signature
+	}
+	return bc.Func.Type().(*types.Signature)
 }
 
 func (bc *BoundContract) bindParams(env *Env, recv *Val, args []*Val, fn *ssa.Function) {
-	sig := bc.Func.Type().(*types.Signature)
+	sig := bc.sig()
 	k := 0
 	if sig.Recv() != nil {
 		if recv != nil {
@@ -299,7 +308,7 @@ func withType(v *Val, t types.Type) *Val {
 }
 
 func (bc *BoundContract) bindResults(env *Env, res *Val) {
-	sig := bc.Func.Type().(*types.Signature)
+	sig := bc.sig()
 	n := sig.Results().Len()
 	var rs []*Val
 	switch n {
@@ -486,6 +495,7 @@ func (fr *Frame) havocLoc(env *Env, x Expr, st *State, reach *Term) error {
 			_, el, _ := arrParts(srt)
 			fresh := c.sc.freshConst("mod_"+m.Name(), el)
 			c.set(st, key, tStore(cur, recv.T, fresh))
+			c.bridgedWrite(st, m, recv.T, nil)
 			return nil
 		}
 	}
@@ -581,6 +591,9 @@ func (c *Ctx) assign(env *Env, target Expr, v *Val, st *State) error {
 				idxs = append(idxs, a.T)
 			}
 			c.set(st, key, nestedStore(cur, idxs, v.T))
+			if len(args) == 0 {
+				c.bridgedWrite(st, m, recv.T, v.T)
+			}
 			return nil
 		}
 	case *ESel:
@@ -615,6 +628,7 @@ func (c *Ctx) pureFuncApp(f *types.Func, sig *types.Signature, args []*Val) (*Va
 	if sig == nil {
 		sig = f.Type().(*types.Signature)
 	}
+	c.pureAxiom(f)
 	rt := resultType(sig)
 	name := smtName("pf_" + f.FullName())
 	var sorts []Sort
@@ -690,6 +704,9 @@ func (c *Ctx) pureMethodApp(st *State, m *types.Func, recv *Val, args []*Val) (*
 			return nil, fmt.Errorf("pure method with composite argument")
 		}
 		t = tSelect(t, a.T)
+	}
+	if len(args) == 0 {
+		t = c.bridgedRead(st, m, recv.T, t)
 	}
 	sig := m.Type().(*types.Signature)
 	return &Val{T: t, Typ: sig.Results().At(0).Type()}, nil
@@ -858,4 +875,100 @@ func (fr *Frame) dispatchClosures(instr ssa.Instruction, cands []*Val, fnv *Val,
 		return &Val{Typ: rt}
 	}
 	return fr.joinVals("dispatch", rt, results, conds)
+}
+
+// pureAxiom states the postconditions of a pure function as a quantified fact about its uninterpreted symbol
+// (once per function and context), so that applications inside contracts - also under quantifiers - know them.
+// Only heap-independent postconditions over scalar parameters are stated; the postconditions themselves are
+// verified on the function (or trusted, for library specs).
+func (c *Ctx) pureAxiom(f *types.Func) {
+	if c.pureAxDone == nil {
+		c.pureAxDone = map[string]bool{}
+	}
+	full := f.FullName()
+	if c.pureAxDone[full] {
+		return
+	}
+	c.pureAxDone[full] = true
+	bc := c.V.contractFor(full)
+	if bc == nil || !bc.C.Pure || bc.Anon != nil || c.entry == nil {
+		return
+	}
+	hasEns := false
+	for _, cl := range bc.C.Clauses {
+		if cl.Kind == "ensures" {
+			hasEns = true
+		}
+	}
+	if !hasEns {
+		return
+	}
+	sig := f.Type().(*types.Signature)
+	var qs []*Val
+	var binders []string
+	mkq := func(name string, t types.Type) bool {
+		s, ok := sortOf(t)
+		if !ok {
+			return false
+		}
+		if _, isArr := t.Underlying().(*types.Array); isArr {
+			return false
+		}
+		c.sc.fresh["q_"+name]++
+		n := fmt.Sprintf("q_%s!%d", name, c.sc.fresh["q_"+name])
+		qs = append(qs, &Val{T: &Term{n, s}, Typ: t})
+		binders = append(binders, fmt.Sprintf("(%s %s)", n, s))
+		return true
+	}
+	if sig.Recv() != nil {
+		if !mkq("recv", sig.Recv().Type()) {
+			return
+		}
+	}
+	for i := 0; i < sig.Params().Len(); i++ {
+		if !mkq(fmt.Sprintf("a%d", i), sig.Params().At(i).Type()) {
+			return
+		}
+	}
+	if len(qs) == 0 {
+		return
+	}
+	res, err := c.pureFuncApp(f, sig, qs)
+	if err != nil || res.T == nil {
+		return
+	}
+	env := newEnv(c, bc.Pkg)
+	env.st = c.entry
+	env.old = c.entry
+	env.isBinder = true
+	bc.bindParams(env, nil, qs, nil)
+	bc.bindResults(env, res)
+	heapy := func(t *Term) bool {
+		return strings.Contains(t.S, "H0_") || strings.Contains(t.S, "H_") || strings.Contains(t.S, "Hv_") || strings.Contains(t.S, "J_")
+	}
+	nUnsup := len(c.unsup)
+	var req, ens []*Term
+	for _, cl := range bc.C.Clauses {
+		switch cl.Kind {
+		case "requires":
+			t, err := env.evalBool(cl.Expr)
+			if err != nil || heapy(t) {
+				c.unsup = c.unsup[:nUnsup]
+				return
+			}
+			req = append(req, t)
+		case "ensures":
+			t, err := env.evalBool(cl.Expr)
+			if err != nil || heapy(t) {
+				continue
+			}
+			ens = append(ens, t)
+		}
+	}
+	c.unsup = c.unsup[:nUnsup]
+	if len(ens) == 0 {
+		return
+	}
+	body := tImp(tAnd(req...), tAnd(ens...))
+	c.sc.gaxioms = append(c.sc.gaxioms, fmt.Sprintf("(forall (%s) (! %s :pattern (%s)))", strings.Join(binders, " "), body.S, res.T.S))
 }
